@@ -1,7 +1,8 @@
 /-
   Driver commands for the reading side of `LocalFS` (C05 / C13):
 
-  `lfs.read root=<hex root string> nt=<0|1> skip=<hex real path>,… fs=<entries>` runs `LFS.readTree` and prints the
+  `lfs.read root=<hex root string> nt=<0|1> ofs=<0|1> mnt=<hex real path>,… fs=<entries>` (`mnt`: mount points of other file
+  systems, skipped under `ofs`, --one-file-system) runs `LFS.readTree` and prints the
   record stream `Tar` gets from `NewLocalFS(root).Next()`: `ok <record>;<record>…` or `err`.
   An entry is as for `lfs.untar`, with the kinds `d`, `f`, `l` and `v<type bits>:<major>:<minor>` (a node made by mknod).
   A record is `<hex path>|<hex base>|<hex parent>|<kind>|<mode>|<uid>|<gid>|<mtime>|<size or ->|<hex data>|<hex target>|<major>|<minor>|<khex=vhex,…>`
@@ -45,7 +46,7 @@ def cmdLfsRead (a : Args) : String :=
   match a.bytes "root" with
   | some root =>
     let ents := if (a.get "fs").isEmpty then [] else (a.get "fs").splitOn ";"
-    let skips := if (a.get "skip").isEmpty then [] else ((a.get "skip").splitOn ",").filterMap fun h => (ofHex h).map comps
+    let skips := if (a.get "mnt").isEmpty || !a.bool "ofs" then [] else ((a.get "mnt").splitOn ",").filterMap fun h => (ofHex h).map comps
     match ents.mapM parseEntryR with
     | none => "bad-case"
     | some fs =>
